@@ -1208,48 +1208,53 @@ theorem parseCache_ok {v : Val} {c : Cache} (hv : NoUMap v) (h : parseCache v = 
       exact remOK_remMap m _ (by simpa [NoUMap] using hv)
     · cases h
 
-theorem cache_roundtrip_ok (c : Cache) (hR : RemOK Gen.struct_Cache c.rem)
-    (hs : c.disabled = true → c.name = "" ∧ (c.paths.getD []) = [] ∧ c.size = "" ∧ (c.rem.getD []) = []) :
+theorem cache_roundtrip_ok (c : Cache) (hR : RemOK Gen.struct_Cache c.rem) :
     ∃ c', parseCache (rereadJ (mCache c)) = .ok (some c') ∧ normCache c' = normCache c := by
   unfold mCache
-  by_cases hd : c.disabled = true
-  · obtain ⟨h1, h2, h3, h4⟩ := hs hd
-    rw [if_pos hd]
+  split
+  · -- nothing but `disabled: true`: written as `false`, which reads back as a disabled cache
+    rename_i hc
+    simp only [Bool.and_eq_true, beq_iff_eq, List.isEmpty_iff] at hc
+    obtain ⟨⟨⟨⟨hd, h1⟩, h2⟩, h3⟩, h4⟩ := hc
     refine ⟨{ disabled := true, name := "", paths := none, size := "", rem := none }, rfl, ?_⟩
     obtain ⟨d, n, p, s, r⟩ := c
     simp only at hd h1 h3 h2 h4
     subst hd h1 h3
     simp only [normCache, normList_of_getD_nil h2, normList_of_getD_nil h4]
     rfl
-  · have hd' : c.disabled = false := by simpa using hd
-    rw [if_neg hd]
+  · -- an object; `disabled: true` (if set) is written next to the other settings and is claimed by
+    -- the struct field on re-parse (it is a key of an ordinary field, so it cannot be in `rem`)
     have hdis : (c.rem.getD []).lookup "disabled" = none := hR.prim' (by decide)
     have hname : (c.rem.getD []).lookup "name" = none := hR.prim' (by decide)
     have hpaths : (c.rem.getD []).lookup "paths" = none := hR.prim' (by decide)
     have hsize : (c.rem.getD []).lookup "size" = none := hR.prim' (by decide)
     obtain ⟨U, hU, hsU, hl⟩ := reread_inline
-      ((if c.name == "" then [] else [("name", .str c.name)]) ++
+      ((if c.disabled then [("disabled", .bool true)] else []) ++
+        (if c.name == "" then [] else [("name", .str c.name)]) ++
         (if (c.paths.getD []).isEmpty then [] else [("paths", strsV (c.paths.getD []))]) ++
         (if c.size == "" then [] else [("size", .str c.size)])) c.rem
-      (by by_cases h1 : c.name = "" <;> by_cases h2 : (c.paths.getD []).isEmpty = true <;>
-            by_cases h3 : c.size = "" <;> simp [h1, h2, h3])
+      (by by_cases h0 : c.disabled = true <;> by_cases h1 : c.name = "" <;>
+            by_cases h2 : (c.paths.getD []).isEmpty = true <;>
+            by_cases h3 : c.size = "" <;> simp [h0, h1, h2, h3])
       hR.sorted hR.noUMap
     have hrem := rem_roundtrip_af _ aliasFree_cache _ c.rem
-      (by by_cases h1 : c.name = "" <;> by_cases h2 : (c.paths.getD []).isEmpty = true <;>
-            by_cases h3 : c.size = "" <;> simp [h1, h2, h3] <;> decide) hR U hsU hl
-    refine ⟨{ disabled := false, name := c.name, paths := if (c.paths.getD []).isEmpty then none else c.paths,
+      (by by_cases h0 : c.disabled = true <;> by_cases h1 : c.name = "" <;>
+            by_cases h2 : (c.paths.getD []).isEmpty = true <;>
+            by_cases h3 : c.size = "" <;> simp [h0, h1, h2, h3] <;> decide) hR U hsU hl
+    refine ⟨{ disabled := c.disabled, name := c.name, paths := if (c.paths.getD []).isEmpty then none else c.paths,
               size := c.size, rem := remMap (remainder U Gen.struct_Cache) }, ?_, ?_⟩
     · rw [hU]
       simp only [parseCache]
       rw [fieldOf_afKey (k := "disabled") (by decide), fieldOf_afKey (k := "name") (by decide),
         fieldOf_afKey (k := "paths") (by decide), fieldOf_afKey (k := "size") (by decide),
         hl "disabled", hl "name", hl "paths", hl "size"]
-      by_cases h1 : c.name = "" <;> by_cases h2 : (c.paths.getD []).isEmpty = true <;>
+      by_cases h0 : c.disabled = true <;> by_cases h1 : c.name = "" <;>
+        by_cases h2 : (c.paths.getD []).isEmpty = true <;>
         by_cases h3 : c.size = "" <;>
-        simp [h1, h2, h3, List.lookup, hdis, hname, hpaths, hsize, boolOf, strOf_str, strsOf_strsV, reread_strsV,
+        simp [h0, h1, h2, h3, List.lookup, hdis, hname, hpaths, hsize, boolOf, strOf_str, strsOf_strsV, reread_strsV,
           rereadJ, show strsOf Val.null = .ok none from rfl] <;>
         (cases hp : c.paths <;> simp_all)
-    · simp only [normCache, hrem, hd']
+    · simp only [normCache, hrem]
       by_cases h2 : (c.paths.getD []).isEmpty = true
       · simp only [h2, if_true]
         rw [normList_of_getD_nil (x := c.paths) (by simpa using h2)]
@@ -1257,9 +1262,9 @@ theorem cache_roundtrip_ok (c : Cache) (hR : RemOK Gen.struct_Cache c.rem)
       · simp [h2]
 
 theorem cache_roundtrip (v : Val) (c : Cache) (hv : NoUMap v) (h : parseCache v = .ok (some c))
-    (hs : StableUMap c.rem ∧ (c.disabled = true → c.name = "" ∧ (c.paths.getD []) = [] ∧ c.size = "" ∧ (c.rem.getD []) = [])) :
+    (_hs : StableUMap c.rem) :
     ∃ c', parseCache (rereadJ (mCache c)) = .ok (some c') ∧ normCache c' = normCache c :=
-  cache_roundtrip_ok c (parseCache_ok hv h) hs.2
+  cache_roundtrip_ok c (parseCache_ok hv h)
 
 /-! ## Part 4: normalisation is idempotent
 
@@ -1626,7 +1631,7 @@ theorem command_roundtrip_ok (c : CommandStep) (hok : CommandOK c) (hs : StableC
     ∃ kvs c', rereadJ (mCommand c) = .omap kvs ∧ parseCommand kvs = .ok c' ∧ normCommand c' = normCommand c ∧
       kvs.lookup "command" = some (.str c.command) ∧
       ∀ k, k ∉ cmdOutlineKeys → kvs.lookup k = (c.rem.getD []).lookup k := by
-  obtain ⟨hst_alias, _, hst_mx, hst_cache, _⟩ := hs
+  obtain ⟨hst_alias, _, hst_mx, _, _⟩ := hs
   rw [mCommand_eq]
   obtain ⟨U, hU, hsU, hl⟩ := reread_inline (cmdOutline c) c.rem (cmdOutline_nodup c) hok.rem.sorted hok.rem.noUMap
   obtain ⟨ok, ol, oc, op, oe, os, om, oca⟩ := cmdOutline_lookups c
@@ -1731,7 +1736,7 @@ theorem command_roundtrip_ok (c : CommandStep) (hok : CommandOK c) (hs : StableC
     cases hm : c.cache with
     | none => exact ⟨none, by simp [hok.rem.prim' (k := "cache") (by decide)], rfl⟩
     | some k =>
-      obtain ⟨k', h1, h2⟩ := cache_roundtrip_ok k (hok.cache k hm) (hst_cache k hm).2
+      obtain ⟨k', h1, h2⟩ := cache_roundtrip_ok k (hok.cache k hm)
       exact ⟨some k', by simp only [Option.map_some]; exact h1, by simp [h2]⟩
   -- remainder
   have hrem : normList (remMap (remainder R csD)) = normList c.rem := by
